@@ -80,7 +80,7 @@ func TestC19(t *testing.T) {
 		mc := NewMachine("C19", sch, column.Options{})
 		defer mc.Close()
 		defer mc.Guard(t)
-		cfg := TxnCfg{Prop: "C19", MaxSteps: 10, Rollback: true, Deletes: true, Inserts: true, Merges: true, OwnUpdates: true, Direct: true,
+		cfg := TxnCfg{Prop: "C19", MaxSteps: 10, Peeks: true, Rollback: true, Deletes: true, Inserts: true, Merges: true, OwnUpdates: true, Direct: true,
 			NoStoreOnDel: KFActive("f11-store-and-delete-same-txn"), NoOpAfterLenMerge: KFActive("f15-difflen-merge-reorder"), NoDoubleDelete: KFActive("f24-double-delete-double-trigger")}
 		var trigs []*trigState
 		seq := 0
